@@ -150,4 +150,150 @@ theorem sqrt_le_float (x : Float) (hx : x.isFinite = true) (h0 : 0 ≤ toRat x) 
       B ^ 2 * ((1 + (2 : ℚ) ^ (-52 : Int)) ^ 2 * (1 - (2 : ℚ) ^ (-52 : Int))) := by ring
   linarith
 
+/-! ### `abs`, `EPSILON` -/
+
+theorem float_abs_unpack (x : Float) :
+    (Scalar.abs x : Float).toModel.unpack = repack Format.binary64 x.toModel.unpack.abs := rfl
+
+theorem float_abs_unpack_eq (x : Float) : (Scalar.abs x : Float).toModel.unpack = x.toModel.unpack.abs := by
+  rw [float_abs_unpack]
+  have hc := float_canon x
+  have hr := float_inRange x
+  generalize x.toModel.unpack = u at *
+  have hcn : Canon Format.binary64 u.abs := by cases u <;> trivial
+  rcases repack_cases Format.binary64 (by decide) _ hcn with ⟨h1, _⟩ | ⟨s, m, e, p, h0, hnr, _⟩
+  · exact h1
+  · exfalso; apply hnr
+    cases u <;> trivial
+
+/-- **`abs` is exact**: the value of `|z|` is the absolute value of the value (every `z`: both sides are `0` for `±∞`/NaN). -/
+theorem toRat_abs_float (z : Float) : toRat (Scalar.abs z : Float) = |toRat z| := by
+  unfold toRat
+  rw [float_abs_unpack_eq]
+  cases z.toModel.unpack with
+  | notANumber => simp [UnpackedFloat.abs, uval]
+  | infinity s => simp [UnpackedFloat.abs, uval]
+  | zero s => simp [UnpackedFloat.abs, uval]
+  | finite s m e hm =>
+    rw [uval_abs_fin]
+    simp [UnpackedFloat.abs, uval, sgnQ]
+
+theorem abs_isFinite (z : Float) : (Scalar.abs z : Float).isFinite = z.isFinite := by
+  show (Scalar.abs z : Float).toModel.unpack.isFinite = z.toModel.unpack.isFinite
+  rw [float_abs_unpack_eq]
+  cases z.toModel.unpack <;> rfl
+
+theorem eps_unpack :
+    (Scalar.eps : Float).toModel.unpack = .finite .positive 4503599627370496 (-104) (by decide) := by
+  show (Float.ofBits 0x3CB0000000000000).toModel.unpack = _
+  rw [FM.float_unpack_ofBits _ (by decide)]; rfl
+
+/-- **`f64::EPSILON = 2⁻⁵²`.** -/
+theorem toRat_eps_float : toRat (Scalar.eps : Float) = (2 : ℚ) ^ (-52 : Int) := by
+  rw [toRat_of_unpack eps_unpack]
+  norm_num [sgnQ]
+
+theorem eps_isFinite : (Scalar.eps : Float).isFinite = true := by
+  show (Scalar.eps : Float).toModel.unpack.isFinite = true
+  rw [eps_unpack]; rfl
+
+/-- something `<= EPSILON` in absolute value is finite. -/
+theorem finite_of_abs_le_eps (z : Float) (h : Scalar.le (Scalar.abs z) (Scalar.eps : Float) = true) :
+    z.isFinite = true := by
+  rw [← abs_isFinite]
+  show (Scalar.abs z : Float).toModel.unpack.isFinite = true
+  rw [FMO.le_float, eps_unpack, float_abs_unpack_eq] at h
+  rw [float_abs_unpack_eq]
+  cases hz : z.toModel.unpack with
+  | notANumber => rw [hz] at h; cases h
+  | infinity s => rw [hz] at h; cases h
+  | zero s => rfl
+  | finite s m e hm => rfl
+
+/-- `|z| <= EPSILON` in the IEEE order is `|toRat z| ≤ 2⁻⁵²` (and `z` is finite). -/
+theorem abs_le_eps_toRat (z : Float) (h : Scalar.le (Scalar.abs z) (Scalar.eps : Float) = true) :
+    z.isFinite = true ∧ |toRat z| ≤ (2 : ℚ) ^ (-52 : Int) := by
+  have fz := finite_of_abs_le_eps z h
+  refine ⟨fz, ?_⟩
+  have := toRat_le_of_le _ _ (by rw [abs_isFinite]; exact fz) eps_isFinite h
+  rw [toRat_abs_float, toRat_eps_float] at this
+  exact this
+
+/-- **the degenerate bracket**: finite `d0`, `d1` with `|d0 ⊖ d1| <= EPSILON` are within `2⁻⁵² (1 + 2⁻⁵²)` of each other
+(the subtraction rounds; the factor cannot be dropped, see the example below). -/
+theorem abs_sub_le_eps_toRat (d0 d1 : Float) (f0 : d0.isFinite = true) (f1 : d1.isFinite = true)
+    (h : Scalar.le (Scalar.abs (d0 - d1)) (Scalar.eps : Float) = true) :
+    |toRat d0 - toRat d1| ≤ (2 : ℚ) ^ (-52 : Int) * (1 + (2 : ℚ) ^ (-52 : Int)) := by
+  obtain ⟨fz, hz⟩ := abs_le_eps_toRat _ h
+  obtain ⟨δ, hδ, hv⟩ := sub_err_float d0 d1 f0 f1 fz
+  rw [hv, abs_mul] at hz
+  obtain ⟨d1', d2'⟩ := abs_le.mp hδ
+  have h1 : 1 - (2 : ℚ) ^ (-53 : Int) ≤ |1 + δ| := by
+    rw [abs_of_nonneg (by have : (2 : ℚ) ^ (-53 : Int) ≤ 1 := by norm_num
+                          linarith)]
+    linarith
+  have hD := abs_nonneg (toRat d0 - toRat d1)
+  generalize |toRat d0 - toRat d1| = D at *
+  have h2 : D * (1 - (2 : ℚ) ^ (-53 : Int)) ≤ (2 : ℚ) ^ (-52 : Int) :=
+    le_trans (mul_le_mul_of_nonneg_left h1 hD) hz
+  have c : (1 : ℚ) ≤ (1 + (2 : ℚ) ^ (-52 : Int)) * (1 - (2 : ℚ) ^ (-53 : Int)) := by norm_num
+  have c0 : (0 : ℚ) < 1 - (2 : ℚ) ^ (-53 : Int) := by norm_num
+  refine le_of_mul_le_mul_right ?_ c0
+  calc D * (1 - (2 : ℚ) ^ (-53 : Int)) ≤ (2 : ℚ) ^ (-52 : Int) * 1 := by rw [mul_one]; exact h2
+    _ ≤ (2 : ℚ) ^ (-52 : Int) * ((1 + (2 : ℚ) ^ (-52 : Int)) * (1 - (2 : ℚ) ^ (-53 : Int))) :=
+        mul_le_mul_of_nonneg_left c (two_zpow_pos _).le
+    _ = _ := by ring
+
+/-! ### non-vacuity / sharpness (closed doubles, evaluated by the kernel) -/
+
+section Examples
+
+/-- `sqrt 2` and `sqrt(f64::MAX)` are finite (`sqrt(f64::MAX) = 0x5FEFFFFFFFFFFFFF ≈ 1.34·10¹⁵⁴`), and so is `sqrt(−0)`. -/
+example : (Scalar.sqrt (2 : Float) : Float).isFinite = true ∧
+    (Scalar.sqrt (Float.ofBits 0x7FEFFFFFFFFFFFFF) : Float) = Float.ofBits 0x5FEFFFFFFFFFFFFF ∧
+    (Scalar.sqrt (Float.ofBits 0x7FEFFFFFFFFFFFFF) : Float).isFinite = true ∧
+    (Scalar.sqrt (Float.ofBits 0x8000000000000000) : Float).isFinite = true := by decide +kernel
+
+/-- the hypotheses of `sqrt_finite_float` on `f64::MAX`, and the instance. -/
+example : (Scalar.sqrt (Float.ofBits 0x7FEFFFFFFFFFFFFF) : Float).isFinite = true := by
+  have hu : (Float.ofBits 0x7FEFFFFFFFFFFFFF).toModel.unpack =
+      .finite .positive 9007199254740991 971 (by decide) := by
+    rw [FM.float_unpack_ofBits _ (by decide)]; rfl
+  refine sqrt_finite_float _ (by decide +kernel) ?_
+  rw [toRat_of_unpack hu]
+  simp only [sgnQ, one_mul]
+  exact mul_nonneg (by norm_num) (two_zpow_pos _).le
+
+/-- `sqrt_le_float` on `x = 2`, `B = 3/2`. -/
+example : toRat (Scalar.sqrt (2 : Float) : Float) ≤ 3 / 2 * (1 + (2 : ℚ) ^ (-52 : Int)) := by
+  have h2 : (2 : Float).toModel.unpack = .finite .positive 4503599627370496 (-51) (by decide) := by
+    have : (2 : Float) = Float.ofBits 0x4000000000000000 := by decide +kernel
+    rw [this, FM.float_unpack_ofBits _ (by decide)]; rfl
+  have hv : toRat (2 : Float) = 2 := by rw [toRat_of_unpack h2]; norm_num [sgnQ]
+  exact sqrt_le_float 2 (by decide +kernel) (by rw [hv]; norm_num) (3 / 2) (by norm_num) (by rw [hv]; norm_num)
+
+/-- the hypothesis `0 ≤ toRat x` is needed: `sqrt(−1)` is a NaN. -/
+example : (Scalar.sqrt (-1 : Float) : Float).isFinite = false := by decide +kernel
+
+/-- `abs_sub_le_eps_toRat`: the hypotheses hold on `d0 = d1 = 25`, and on the
+pair `d0 = EPSILON`, `d1 = −2⁻¹¹⁰`, for which the subtraction ROUNDS (`d0 ⊖ d1 = EPSILON`) and the exact difference
+`2⁻⁵² + 2⁻¹¹⁰` EXCEEDS `2⁻⁵²`: the factor `(1 + 2⁻⁵²)` (or some slack) cannot be dropped. -/
+example : Scalar.le (Scalar.abs ((25 : Float) - 25)) (Scalar.eps : Float) = true ∧
+    Scalar.le (Scalar.abs (Float.ofBits 0x3CB0000000000000 - Float.ofBits 0xB910000000000000)) (Scalar.eps : Float) = true ∧
+    (Float.ofBits 0x3CB0000000000000 - Float.ofBits 0xB910000000000000 = Float.ofBits 0x3CB0000000000000) := by
+  decide +kernel
+
+example : (2 : ℚ) ^ (-52 : Int) <
+    |toRat (Float.ofBits 0x3CB0000000000000) - toRat (Float.ofBits 0xB910000000000000)| := by
+  have h0 : (Float.ofBits 0x3CB0000000000000).toModel.unpack =
+      .finite .positive 4503599627370496 (-104) (by decide) := by
+    rw [FM.float_unpack_ofBits _ (by decide)]; rfl
+  have h1 : (Float.ofBits 0xB910000000000000).toModel.unpack =
+      .finite .negative 4503599627370496 (-162) (by decide) := by
+    rw [FM.float_unpack_ofBits _ (by decide)]; rfl
+  rw [toRat_of_unpack h0, toRat_of_unpack h1]
+  norm_num [sgnQ]
+
+end Examples
+
 end Rosu.FErr
